@@ -1014,7 +1014,7 @@ func (*VMDictValue).V
 
 
 func (*Context).evaluate
-  props C01 C04 C07 C13 C14 C17 C18
+  props C01 C02 C04 C07 C13 C14 C15 C17 C18
   requires ctx != nil
   requires 0 <= ctx.codeIndex && ctx.codeIndex <= len(ctx.code)
   requires forall k in [0, ctx.codeIndex): wfInstr(&ctx.code[k], k, ctx.codeIndex)
